@@ -35,6 +35,13 @@ def _executor_class(backend: str):
 
 
 class _DsReplacer(ast.NodeTransformer):
+    def visit_Call(self, n):
+        # vm_const(<literal expression>) stands for ONE ast.Constant node holding that value - what func_adl makes of a captured
+        # python variable (a negative number then is a Constant, not the UnaryOp the parser produces for the text -1)
+        if isinstance(n.func, ast.Name) and n.func.id == "vm_const" and len(n.args) == 1 and not n.keywords:
+            return ast.Constant(ast.literal_eval(n.args[0]))
+        return self.generic_visit(n)
+
     def visit_Name(self, n):
         if n.id == "ds":
             return ast.Call(func=ast.Name("EventDataset", ast.Load()), args=[ast.Constant("ds")], keywords=[])
